@@ -31,9 +31,15 @@ def cut_tests(text):
     return text if i < 0 else text[:i]
 
 
+def norm_lifetimes(text):
+    """Lifetime names carry no meaning for the tables: every named lifetime becomes `'a`
+    (`'static` and `'_` are kept), so renaming one is not reported as a change of the table."""
+    return re.sub(r"'(?!static\b|_\b)[a-z_][A-Za-z0-9_]*\b(?!')", "'a", text)
+
+
 def read(repo, rel):
     p = os.path.join(repo, "src", rel)
-    return cut_tests(open(p).read())
+    return norm_lifetimes(cut_tests(open(p).read()))
 
 
 def lineno(text, pos):
@@ -89,12 +95,12 @@ def verifier_table(repo):
             null_decision = m.group(1)
             item("verifierTable", rel, ln, flat, {"null": null_decision})
             continue
-        m = re.search(r"Verifier<'a, R, C, I, P> for \(entity::Identifier, U\) where U: Verifier<'a, R, C, I, P>, \{ type Decision = <U as Verifier<'a, R, C, I, P>>::Decision;", flat)
+        m = re.search(r"Verifier<'a, R, C, I, P> for \(entity::Identifier, U\) where U: Verifier<'a, R, C, I, P>,? \{ type Decision = <U as Verifier<'a, R, C, I, P>>::Decision;", flat)
         if m:
             ident_next = True
             item("verifierTable", rel, ln, flat, {"ident": "next"})
             continue
-        m = re.search(r"Verifier<'a, R, C, \(I, IS\), \((\w+), P\)> for \((.+?), U\) where (R|C): Get<(.+?), I>, U: Verifier<'a, R, C, IS, P>, \{ type Decision = (.+?); \}", flat)
+        m = re.search(r"Verifier<'a, R, C, \(I, IS\), \((\w+), P\)> for \((.+?), U\) where (R|C): Get<(.+?), I>, U: Verifier<'a, R, C, IS, P>,? \{ type Decision = (.+?); \}", flat)
         if not m:
             err("verifier.rs:%d: impl shape not recognised: %s" % (ln, flat[:160]))
             continue
@@ -142,7 +148,7 @@ def check_table(repo):
     text = " ".join(strip_comments(read(repo, rel)).split())
     null_append = bool(re.search(r"Claims<'_, V, Null, Null, R, Null> for Null \{ type Decision = decision::Append; \}", text))
     cut_cut = bool(re.search(r"Check<'_, decision::Cut, V, Null, Null, R, Null> for T \{ type Decision = decision::Cut; \}", text))
-    app_rest = bool(re.search(r"Check<'a, decision::Append, V, I, P, R, RI> for \(C, T\) where T: Claims<'a, V, I, P, R, RI>, \{ type Decision = <T as Claims<'a, V, I, P, R, RI>>::Decision; \}", text))
+    app_rest = bool(re.search(r"Check<'a, decision::Append, V, I, P, R, RI> for \(C, T\) where T: Claims<'a, V, I, P, R, RI>,? \{ type Decision = <T as Claims<'a, V, I, P, R, RI>>::Decision; \}", text))
     item("checkTable", rel, 0, "Claims for Null / Check<Cut> / Check<Append>", [null_append, cut_cut, app_rest])
     if not (null_append and cut_cut and app_rest):
         err("claim/mod.rs: Claims/Check impls not in the expected shape: null_append=%s cut_cut=%s append_rest=%s" % (null_append, cut_cut, app_rest))
@@ -229,7 +235,7 @@ def view_filter_table(repo):
         k = kinds[m.group(1)]
         if re.search(r"unsafe \{ identifier\.get_unchecked\(R_::LEN - R::LEN - 1\) \}", flat):
             rows[k] = True
-        elif re.search(r"-> bool where R_: Registry, \{ true \}", flat):
+        elif re.search(r"-> bool where R_: Registry,? \{ true \}", flat):
             rows[k] = False
         else:
             err("filter/sealed.rs:%d: body of %s not recognised" % (lineno(text, start), m.group(1)))
@@ -259,7 +265,7 @@ def send_sync_impls(repo):
                 continue
             p = os.path.join(root, f)
             rel = os.path.relpath(p, os.path.join(repo, "src"))
-            text = strip_comments(cut_tests(open(p).read()))
+            text = strip_comments(norm_lifetimes(cut_tests(open(p).read())))
             for m in re.finditer(r"unsafe impl\s*<(.*?)>\s*(Send|Sync)\s+for\s+([\w:]+)\s*<(.*?)>\s*(where(.*?))?\{\s*\}", text, flags=re.S):
                 generics, tr, ty, _args, _w, where = m.groups()
                 bounds = []
